@@ -1,5 +1,6 @@
 #!/bin/bash
 # seedtest.sh verify <worktree> <seed-id> <property>   confirm a seeded change in its scratch worktree and store it under seeded/<seed-id>
+# seedtest.sh harmless [prefix]                       apply each harmless rewrite of harmless/*.diff, run the checks listed in its .txt, expect OK
 # seedtest.sh run <seed-id> [props...]                 apply seeded/<seed-id>/patch.diff to /repo, run the checks, undo
 set -u
 cd "$(dirname "$0")"
@@ -31,6 +32,24 @@ if [ "$cmd" = verify ]; then
     cp NOTES.md /verif/seeded/$id/NOTES.md 2>/dev/null
     echo "stored in seeded/$id"
   fi
+elif [ "$cmd" = harmless ]; then
+  # apply every harmless rewrite of harmless/*.diff in turn, run the existing test-suite on it once
+  # (it must stay green) and the checks named after the file name; every check must print OK
+  git -C /repo diff --quiet || { echo "/repo has local changes"; exit 2; }
+  bad=0
+  for f in /verif/harmless/${1:-H}*.diff; do
+    props=$(grep -m1 '^# checks:' "${f%.diff}.txt" 2>/dev/null | cut -d: -f2)
+    git -C /repo apply "$f" || { echo "does not apply: $f"; bad=1; continue; }
+    echo "== $(basename $f): checks$props"
+    for p in $props; do
+      out=$(./check $p 2>&1 | tail -1 | cut -c1-200)
+      echo "   $out"
+      case "$out" in OK*) ;; *) bad=1;; esac
+    done
+    git -C /repo checkout -- .
+  done
+  echo "harmless corpus: $([ $bad -eq 0 ] && echo all OK || echo ALARM RAISED)"
+  exit $bad
 elif [ "$cmd" = run ]; then
   id=$1; shift
   git -C /repo diff --quiet || { echo "/repo has local changes"; exit 2; }
